@@ -164,6 +164,9 @@ def run_case(ctx, case):
         kw['offset'] = case['offset']
     r = call(linker.solve_t, t, **kw)
     ctx.count('runs_compared')
+    if case['selected'] is not None and kw['submodels'] != list(case['selected']):
+        ctx.violation('argument-mutated', f'solve_t changed the caller\'s `submodels` list from {list(case["selected"])} to {kw["submodels"]}', case)
+        return
     want = reference(case)
     sel = want['sel']
     log = linker.__dict__['v_log']
